@@ -486,7 +486,7 @@ pub fn c05_base(n: usize, start: usize, len: usize) -> Vec<Case> {
     // consumption through adaptors that destroy elements inside the iterator machinery
     // (count, last, nth, skip, step_by drop what they pass over)
     for pre in [vec![], vec![Step::Next], vec![Step::NextBack]] {
-        for t in [Step::Count, Step::Last, Step::Nth(1), Step::Nth(2), Step::NthBack(1), Step::Skip(1), Step::StepBy(1), Step::RevLast] {
+        for t in [Step::Count, Step::Last, Step::Nth(1), Step::Nth(2), Step::NthBack(1), Step::NthBack(2), Step::Skip(1), Step::Skip(2), Step::StepBy(1), Step::RevLast, Step::Fold, Step::RFold, Step::FindMid, Step::RFindMid] {
             let mut s = pre.clone();
             s.push(t);
             ops.push(Op::IntoIter(s.clone()));
